@@ -1045,7 +1045,7 @@ impl Spec {
                 let who = user_of_hex(&row.user);
                 let k = disp_of_locator_hex(&row.locator);
                 out.push(Viol {
-                    props: &["C01", "C04", "C07", "C02", "C03"],
+                    props: &["C01", "C04", "C07", "C02", "C03", "C06"],
                     sig: format!(
                         "rows:unexpected-{}",
                         if db.trackers.contains_key(uuid) { "tracker" } else { "appointment" }
@@ -1066,7 +1066,7 @@ impl Spec {
                 Some(r) => r,
                 None => {
                     out.push(Viol {
-                        props: &["C01", "C03", "C04", "C08", "C07"],
+                        props: &["C01", "C03", "C04", "C08", "C07", "C06"],
                         sig: format!(
                             "rows:missing-{}",
                             match a.state {
